@@ -170,7 +170,7 @@ def instances(r):
     n = r.randrange(1, 9)
     cmp_ = np.array([float(r.choice([1, 1, 0, -1])) for _ in range(n)])
     w = np.array([r.randrange(1, 33) / 8.0 for _ in range(n)])
-    k = r.choice([2.0, 0.5, 8.0, 3.0, 0.1, 1000.0])
+    k = r.choice([2.0, 0.5, 8.0, 3.0, 0.1, 1000.0, 1e-6, 1e-9, 1e-12, 2.0 ** -40, 1e9])
     out.append({"kind": "scale", "site": "chord.weighted_accuracy",
                 "calls": [("base", "chord.weighted_accuracy", (cmp_, w), {}),
                           ("scaled", "chord.weighted_accuracy", (cmp_, w * k), {})],
